@@ -1,7 +1,7 @@
-//! Move/drop ledger (DESIGN.md §6/C15): an element type whose every creation, clone and drop is
-//! logged by id, so that "handed out or dropped exactly once" becomes a conservation check over
-//! an event log. Shared by the harness (mod ledger) and by generated programs (include!).
-#![allow(dead_code)]
+// Move/drop ledger (DESIGN.md §6/C15): an element type whose every creation, clone and drop is
+// logged by id, so that "handed out or dropped exactly once" becomes a conservation check over
+// an event log. Shared by the harness (mod ledger) and by generated programs (include!), hence no
+// inner attributes or inner doc comments in this file.
 
 use std::cell::{Cell, RefCell};
 use std::mem::ManuallyDrop;
